@@ -546,7 +546,7 @@ def r5_finish_order(ck, F, R="C01-R5"):
     aggs = [(bb, s, rv) for bb, s, rv in aggregates(F, A("meta_struct")) if bb.path == b.path]
     for bb, s, rv in aggs:
         e = agg_field_expr(b, s, rv, "index_block_offset")
-        comps = e.a if e.k == "phi" else [e]
+        comps = site_alts(e)      # (through `Ok(offset)?` of a spliced helper, copies, joins; one entry per producing site)
         okc = all(x.strip().k == "call" and x.strip().x["path"].endswith(A("count_count")) and is_self_field(x.strip().a[0], "writer") for x in comps)
         ck.ob(R, "trailer-offset-from-count", okc, f"Metadata.index_block_offset := {e.show()}", b, s)
         if okc:
